@@ -569,4 +569,6 @@ def replay_args(v):
     """Native replay scenario for a counterexample (see /verif/replay/src/main.rs)."""
     if v["key"].startswith("c05.p1."):
         return ("c05_lost_wakeup", ["any"])
+    if v["key"].startswith("c05.p2.") or v["key"].startswith("c05.p3."):
+        return ("c05_second_error", [])
     return None
